@@ -692,6 +692,67 @@ def totality_cases(tier):
         ("main-with-public-list", P + "template Main() { signal input x; signal input z; signal output y; y <== x * z; }\ncomponent main {public [x, z]} = Main();\n", []),
         ("pragma-custom-templates", "pragma circom 2.1.0;\npragma custom_templates;\ntemplate custom C() { signal input a; signal output b; b <-- a; }\ntemplate Main() { signal input x; signal output y; component c = C(); c.a <== x; y <== c.b; }\ncomponent main = Main();\n", []),
     ]
+    # grammar-valid programs with semantic errors (undeclared or duplicate names, wrong arities, misplaced constructs)
+    A1 = "template A() { signal input in; signal output out; out <== in; }\n"
+    cases += [
+        ("undeclared-variable", T("y <== x + nowhere;"), []),
+        ("undeclared-assigned", T("nowhere = 1;\ny <== x;"), []),
+        ("undeclared-array", T("y <== nowhere[3];"), []),
+        ("undefined-template", T("component c = Nowhere();\ny <== x;"), []),
+        ("undefined-template-anonymous", T("y <== Nowhere()(x);"), []),
+        ("undefined-template-anonymous-tuple", T("signal z;\n(y, z) <== Nowhere()(x, x);"), []),
+        ("undefined-function", T("var v = nowhere(1);\ny <== x + v;"), []),
+        ("anonymous-too-many-inputs", P + A1 + "template Main() { signal input x; signal output y; y <== A()(x, x, x); }\ncomponent main = Main();\n", []),
+        ("anonymous-too-few-inputs", P + A1 + "template Main() { signal input x; signal output y; y <== A()(); }\ncomponent main = Main();\n", []),
+        ("anonymous-unknown-named-input", P + A1 + "template Main() { signal input x; signal output y; y <== A()(nope <== x); }\ncomponent main = Main();\n", []),
+        ("anonymous-duplicate-named-input", P + A1 + "template Main() { signal input x; signal output y; y <== A()(in <== x, in <== x); }\ncomponent main = Main();\n", []),
+        ("anonymous-with-template-params-mismatch", P + "template B(n) { signal input in; signal output out; out <== in * n; }\ntemplate Main() { signal input x; signal output y; y <== B()(x); }\ncomponent main = Main();\n", []),
+        ("anonymous-in-function", P + A1 + "function f(a) { var r = A()(a); return r; }\ntemplate Main() { signal input x; signal output y; y <== x + f(1); }\ncomponent main = Main();\n", []),
+        ("anonymous-nested", P + A1 + "template Main() { signal input x; signal output y; y <== A()(A()(A()(x))); }\ncomponent main = Main();\n", []),
+        ("anonymous-in-condition", P + A1 + "template Main() { signal input x; signal output y; var v = 0; if (A()(x) == 1) { v = 1; } y <== x + v; }\ncomponent main = Main();\n", []),
+        ("anonymous-in-array-index", P + A1 + "template Main() { signal input x; signal output y; var a[2]; a[A()(x)] = 1; y <== x; }\ncomponent main = Main();\n", []),
+        ("anonymous-in-assert", P + A1 + "template Main() { signal input x; signal output y; assert(A()(x) == 1); y <== x; }\ncomponent main = Main();\n", []),
+        ("anonymous-in-while-condition", P + A1 + "template Main() { signal input x; signal output y; var v = 0; while (A()(x) == 1) { v += 1; } y <== x + v; }\ncomponent main = Main();\n", []),
+        ("anonymous-in-for-step", P + A1 + "template Main() { signal input x; signal output y; var v = 0; for (var i = 0; i < 2; i += A()(x)) { v += 1; } y <== x + v; }\ncomponent main = Main();\n", []),
+        ("anonymous-in-rhs-index", P + A1 + "template Main() { signal input x; signal output y; var a[2]; y <== x + a[A()(x)]; }\ncomponent main = Main();\n", []),
+        ("anonymous-in-infix", P + A1 + "template Main() { signal input x; signal output y; y <== A()(x) + 1; }\ncomponent main = Main();\n", []),
+        ("anonymous-in-ternary", P + A1 + "template Main() { signal input x; signal output y; var v = x == 0 ? A()(x) : 2; y <== x + v; }\ncomponent main = Main();\n", []),
+        ("anonymous-in-call-argument", P + A1 + "function f(a) { return a; }\ntemplate Main() { signal input x; signal output y; var v = f(A()(x)); y <== x + v; }\ncomponent main = Main();\n", []),
+        ("anonymous-in-component-index", P + A1 + "template Main() { signal input x; signal output y; component c[2]; c[0] = A(); c[1] = A(); c[A()(x)].in <== x; c[1].in <== x; y <== c[0].out; }\ncomponent main = Main();\n", []),
+        ("anonymous-in-template-argument", P + A1 + "template B(n) { signal input in; signal output out; out <== in * n; }\ntemplate Main() { signal input x; signal output y; component c = B(A()(x)); c.in <== x; y <== c.out; }\ncomponent main = Main();\n", []),
+        ("anonymous-in-anonymous-parameter", P + A1 + "template B(n) { signal input in; signal output out; out <== in * n; }\ntemplate Main() { signal input x; signal output y; y <== B(A()(x))(x); }\ncomponent main = Main();\n", []),
+        ("anonymous-in-declaration-init", P + A1 + "template Main() { signal input x; signal output y; var v = A()(x); signal s <== A()(x); y <== x + v + s; }\ncomponent main = Main();\n", []),
+        ("anonymous-in-log-nested", P + A1 + "template Main() { signal input x; signal output y; log(1 + A()(x)); y <== x; }\ncomponent main = Main();\n", []),
+        ("anonymous-in-return-of-function", P + A1 + "function f(a) { return A()(a); }\ntemplate Main() { signal input x; signal output y; y <== x + f(1); }\ncomponent main = Main();\n", []),
+        ("tuple-in-component-index", P + A1 + "template Main() { signal input x; signal output y; component c[2]; c[0] = A(); c[1] = A(); c[(0, 1)].in <== x; c[1].in <== x; y <== c[0].out; }\ncomponent main = Main();\n", []),
+        ("tuple-in-template-argument", P + "template B(n) { signal input in; signal output out; out <== in * n; }\ntemplate Main() { signal input x; signal output y; component c = B((1, 2)); c.in <== x; y <== c.out; }\ncomponent main = Main();\n", []),
+        ("tuple-in-for-step", T("var v = 0; for (var i = 0; i < 2; i += (1, 2)) { v += 1; }\ny <== x + v;"), []),
+        ("tuple-in-ternary-condition", T("var v = (1, 2) ? 1 : 2;\ny <== x + v;"), []),
+        ("parallel-component", P + A1 + "template Main() { signal input x; signal output y; component c = parallel A(); c.in <== x; y <== c.out; }\ncomponent main = Main();\n", []),
+        ("parallel-anonymous", P + A1 + "template Main() { signal input x; signal output y; y <== parallel A()(x); }\ncomponent main = Main();\n", []),
+        ("parallel-on-number", T("var v = parallel 3;\ny <== x + v;"), []),
+        ("duplicate-declaration", T("var a = 1; var a = 2;\ny <== x + a;"), []),
+        ("duplicate-signal", T("signal s; signal s;\ny <== x;"), []),
+        ("duplicate-parameter", P + "template D(n, n) { signal input x; signal output y; y <== x * n; }\ncomponent main = D(1, 2);\n", []),
+        ("duplicate-template", P + A1 + A1 + "component main = A();\n", []),
+        ("two-mains", P + A1 + "component main = A();\ncomponent main = A();\n", []),
+        ("main-undefined-template", P + "component main = Nowhere();\n", []),
+        ("main-wrong-arity", P + A1 + "component main = A(1, 2, 3);\n", []),
+        ("return-in-template", T("return 1;\ny <== x;"), []),
+        ("signal-in-function", P + "function f(a) { signal s; s <== a; return a; }\n", []),
+        ("signal-declared-in-loop", T("for (var i = 0; i < 2; i++) { signal s; s <== x; }\ny <== x;"), []),
+        ("component-declared-in-if", P + A1 + "template Main() { signal input x; signal output y; if (x == 0) { component c = A(); c.in <== x; } y <== x; }\ncomponent main = Main();\n", []),
+        ("recursive-function", P + "function f(a) { return f(a) + 1; }\ntemplate Main() { signal input x; signal output y; y <== x + f(1); }\ncomponent main = Main();\n", []),
+        ("recursive-template", P + "template R(n) { signal input x; signal output y; component r = R(n); r.x <== x; y <== r.y; }\ncomponent main = R(3);\n", []),
+        ("tuple-arity-mismatch-anonymous", P + "template Two() { signal input a; signal output o; signal output r; o <== a; r <== a; }\ntemplate Main() { signal input x; signal output y; signal z; signal w; (y, z, w) <== Two()(x); }\ncomponent main = Main();\n", []),
+        ("tuple-destination-not-variable", T("signal z;\n(y + 1, z) <== (x, x);"), []),
+        ("access-on-number", T("y <== 3[0];") , []),
+        ("component-access-on-var", T("var v = 1;\ny <== v.out;"), []),
+        ("array-of-arrays-access", T("var a[2][3];\na[1][2] = 5;\ny <== x + a[1][2] + a[0][0];"), []),
+        ("negative-array-size", T("var a[0 - 1];\ny <== x;"), []),
+        ("signal-tags", "pragma circom 2.1.0;\ntemplate Main() { signal input {binary} x; signal output {binary, maxbit} y; y <== x; }\ncomponent main = Main();\n", []),
+        ("bus-like-underscore-names", T("var _ = 1; var __a = 2;\ny <== x + __a;"), []),
+    ]
     # lexer-level and byte-level inputs (bytes objects are written verbatim)
     cases += [
         ("hex-without-digits", T("var v = 0x;\ny <== x + v;"), []),
@@ -746,14 +807,14 @@ def suite_totality(exe, tier, seed):
             elif "circomspect:" not in out:
                 what = f"no summary line was printed (exit {rc})"
             if what and len(viol) < 20:
-                viol.append({"unit": "e2e", "fn": "whole tool", "obligation": f"e2e|totality|{name}", "props": ["C01"],
+                viol.append({"unit": "e2e", "fn": "whole tool", "obligation": f"e2e|totality|{name}", "props": ["C01", "C18"] if name.startswith(("anonymous-", "tuple-", "undefined-template-anonymous", "parallel-anonymous")) else ["C01"],
                              "input": {"case": name, "args": args, "source_bytes": len(src), "source_head": (src[:400].decode("latin-1") if isinstance(src, bytes) else src[:400])},
                              "what": f"{name}: {what}", "replay": "python3 run/e2e.py totality quick 0"})
     finally:
         shutil.rmtree(d, ignore_errors=True)
     return {"unit": "e2e-totality", "evaluations": evals, "distinct_nontrivial": nontrivial, "exhaustive": False,
             "rule": "the real CLI on grammar-valid but unusual programs: it terminates within 60 s with exit status 0 or 1, prints its summary line, and neither panics nor overflows its stack",
-            "bound": "templates with Circomlib's names and every arity 0..3 under the curves; 27 structural oddities and 21 lexer- and byte-level inputs (long and non-ASCII string literals in log, hex prefix without digits, empty file, invalid UTF-8, NUL bytes, BOM, unbalanced brackets, 200 000-character lines, non-ASCII text at error positions; empty bodies, deep nesting of ifs / loops / parentheses / ternaries, 2000-term sums, 200-fold unary chains, 400-digit literals in shifts and powers, division by constant zero, zero-sized arrays, 300 templates, 3000-character identifiers, custom templates)",
+            "bound": "templates with Circomlib's names and every arity 0..3 under the curves; 27 structural oddities, 57 grammar-valid programs with semantic errors (undeclared / duplicate names, wrong arities, anonymous components and tuples in every unusual place, misplaced constructs) and 21 lexer- and byte-level inputs (long and non-ASCII string literals in log, hex prefix without digits, empty file, invalid UTF-8, NUL bytes, BOM, unbalanced brackets, 200 000-character lines, non-ASCII text at error positions; empty bodies, deep nesting of ifs / loops / parentheses / ternaries, 2000-term sums, 200-fold unary chains, 400-digit literals in shifts and powers, division by constant zero, zero-sized arrays, 300 templates, 3000-character identifiers, custom templates)",
             "samples": samples, "violations": viol}
 
 
